@@ -61,7 +61,7 @@ class C17(Prop):
             src = tg.sources(rng, ["hot", "hot", "interval", "timer", "iter", "create"])
             pipe = tg.chain(rng, src, list(tg.TIME_OPS), rng.randint(1, 3), p_sync=0.25)
             mode = "mixed" if i % 2 else "fifo"
-            base = tg.events(rng, rng.randint(2, 10), hot=(src[0] == "hot"), mode=mode, unsub_p=0.05,
+            base = tg.events(rng, tg.hist_len(rng, 2, 10), hot=(src[0] == "hot"), mode=mode, unsub_p=0.05,
                              term_p=0.3)
             evs = []
             for e in base:
